@@ -247,3 +247,62 @@ def run_dangling(chk, prog, rule, unit_filter, exceptions=None):
                 chk.violation(rule, inst, c, "the pointer is freed but stays stored where the caller can see it, and the function can "
                               "return (line %d) without replacing it: the next release or use of that location hits freed memory" % (b.term.line or 0))
     return n
+
+
+def run_free_stack(chk, prog, rule, scope):
+    """K8-freestack: what is handed to free() was handed out by the allocator.  A pointer that on some way into the call
+    names a local array (the small-buffer idiom: `p = n <= K ? small : malloc(n)`) is released only where the guards
+    establish that it is not that array."""
+    from .ir import strip_casts, norm_callee
+    n = 0
+    for f in prog.functions():
+        if f.decl or not scope(f.unit.src):
+            continue
+        f.build()
+        for c in f.calls():
+            if norm_callee(c.callee) not in ("free", "realloc") or not c.ops:
+                continue
+            p = strip_casts(c.ops[0])
+            leaves, seen, work = [], set(), [p]
+            while work:
+                v = strip_casts(work.pop())
+                while v.is_inst and v.op == "getelementptr" and all(el[0] in ("*", "[]") and el[1].is_const and el[1].sval == 0
+                                                                   for el in v.x["gep"] if el[0] in ("*", "[]")) and not v.field():
+                    v = strip_casts(v.ops[0])
+                if id(v) in seen:
+                    continue
+                seen.add(id(v))
+                if v.is_inst and v.op == "phi":
+                    work.extend(v.ops)
+                elif v.is_inst and v.op == "select":
+                    work.extend(v.ops[1:])
+                else:
+                    leaves.append(v)
+            stack = [v for v in leaves if v.is_inst and v.op == "alloca"]
+            if len(leaves) < 2 and not stack:
+                continue
+            n += 1
+            chk.analysed(f)
+            inst = "%s:%s@%d" % (f.name, norm_callee(c.callee), c.line)
+            bad = None
+            for a in stack:
+                excluded = False
+                for cond, outcome, br in f.guards_at(c.bb):
+                    if cond.is_inst and cond.op == "icmp" and cond.pred in ("eq", "ne") and outcome == (cond.pred == "ne"):
+                        xs = [strip_casts(o) for o in cond.ops]
+                        roots = []
+                        for x in xs:
+                            while x.is_inst and x.op == "getelementptr" and not x.field():
+                                x = strip_casts(x.ops[0])
+                            roots.append(x)
+                        if any(r is a for r in roots) and any(r is p for r in roots):
+                            excluded = True
+                if not excluded:
+                    bad = a
+            if bad is None:
+                chk.ok(rule, inst, c, "every value that can reach the call came from the allocator (or the local buffer is excluded by "
+                       "a test in front of it)", nontrivial=bool(stack))
+            else:
+                chk.violation(rule, inst, c, "the pointer released here can be the local array '%s': free() of stack memory aborts the "
+                              "process (often on a path that only an earlier failure takes)" % (bad.name or "?"))
+    return n
